@@ -241,7 +241,7 @@ def big_cases():
 
 H40 = 'a1b2c3d4e5f60718293a4b5c6d7e8f9012345678'
 B32 = 'abcdefghijklmnopqrstuvwxyz234567'
-GOOD_URLS = ['http://a.b/c', 'udp://t.example:6969/announce', 'https://[::1]:80/x', 'http://a b/c', 'ftp://x',
+GOOD_URLS = [' http://a b/c', 'http://a.b/c', 'udp://t.example:6969/announce', 'https://[::1]:80/x', 'http://a b/c', 'ftp://x',
              'http://éx.example/ann', 'http://a:0/', 'http://a:65535']
 BAD_URLS = ['abc', '', '//a', 'http:', 'http://', 'http://a:99999', 'http://a:x', 'http://[', 'http://[zz]/',
             'http://a]b/', 'http://℀/', '://', 'a b', 'http://a:-1', 'http://[::1', 'http://a:65536']
